@@ -555,6 +555,10 @@ def int_value(n):
         return n.get('v')
     if is_node(n) and n['k'] == 'sizeof' and 'v' in n:
         return n['v']
+    if is_node(n) and n['k'] == 'ref' and n.get('dk') == 'global' and FX is not None:
+        g = FX.globals.get(n.get('name'))
+        if g and g.get('const') and 'value' in g:
+            return g['value']       # a named integral constant stands for its value
     return None
 
 
